@@ -485,6 +485,10 @@ class Exec:
             k = unwrap(i, o.x['kk'])
             self.need(st, z3.Select(dom, k), f'key-present@{line}', 'safety', line)
             return o.x['vk'].wrap(z3.Select(arr, k))
+        hk = self.c.get('index_hook')
+        if hk is not None:
+            r = hk(self, st, o, i)
+            if r is not None: return r
         if o.kind == 'fn2' and i.kind == 'tuple' and len(i.t) == 2:
             return o.x['wrap'](o.t(toint(i.t[0]), toint(i.t[1])))
         if o.kind == 'tuple':
